@@ -187,7 +187,8 @@ class Runtime:
         if reuse:
             ns = self.modules[h]
         else:
-            fname = f"<dsim-script-{h}-{len(self.modules)}>"
+            # file names of exec'ed code are often shared ("<string>", a notebook cell): some scripts use one common name
+            fname = "<dsim-shared-source>" if op.get("shared_filename") else f"<dsim-script-{h}-{len(self.modules)}>"
             linecache.cache[fname] = (len(src), None, src.splitlines(True), fname)
             import types
 
@@ -257,6 +258,14 @@ class Runtime:
                     pass
             elif isinstance(v, str):
                 ns[k] = v + "_mutated"
+            elif type(v).__name__ == "TensorProto":
+                # a module-level TensorProto used as a constant: mutate it in place
+                if len(v.float_data):
+                    v.float_data[0] = v.float_data[0] + 41.0
+                elif len(v.int64_data):
+                    v.int64_data[0] = v.int64_data[0] + 41
+                elif v.raw_data:
+                    v.raw_data = bytes([(v.raw_data[0] + 1) % 256]) + v.raw_data[1:]
 
     def _serialize(self, model) -> str:
         import onnx
